@@ -51,7 +51,7 @@ fn fnv64(b: &[u8]) -> u64 {
     let mut h = 0xcbf2_9ce4_8422_2325u64;
     for x in b {
         h ^= *x as u64;
-        h = h.wrapping_mul(0x1000_0000_01b3);
+        h = h.wrapping_mul(0x0000_0100_0000_01b3);
     }
     h
 }
